@@ -37,6 +37,17 @@ var c16Pages = []c16Page{
 		}
 		return fmt.Sprintf("http://example.com/article?page=%d", i)
 	}},
+	{"first-noparam-userinfo", func(k int) string {
+		if k == 1 {
+			return "http://user@example.com/article"
+		}
+		return fmt.Sprintf("http://user@example.com/article?page=%d", k)
+	}, func(i int) string {
+		if i == 1 {
+			return "/article"
+		}
+		return fmt.Sprintf("/article?page=%d", i)
+	}},
 	{"https-port", func(k int) string { return fmt.Sprintf("https://example.com:8443/story-%d.html", k) }, func(i int) string { return fmt.Sprintf("story-%d.html", i) }},
 }
 
@@ -296,7 +307,7 @@ func init() {
 	eng.Register(&eng.Prop{
 		ID:        "C16",
 		DesignRef: "§5 C16",
-		Rule: "9 page-URL families (query, query whose last value ends in a slash, relative query, path with trailing slash, directory with trailing slash, escaped path, page URLs carrying a fragment - with the page number in the path, and with a first page that has no page parameter -, https with port and relative file names) x current page k in 1..3 x 6 pager skeletons (numbered, numbered + Prev/Next anchors, Prev/Next only, two pagers, the first two again with a <base href> on another host) x both algorithms; every assignment of <= 2 (quick: two odd slots for three of the families, one for the others) / <= 3 (thorough) link slots to one of 26 odd hrefs (hosts that equal the page's host when a dot is read as any character, escaped #, & and = inside a query value, javascript:, empty, #, mailto:, off-site, scheme-relative, look-alike host, upper-case host, userinfo, other port, relative file/dir, ../, fragment, ftp:, data:, unparseable, missing href, space in path, JavaScript:)." + crossRule + " (under both algorithms) " +
+		Rule: "10 page-URL families (a first page without page parameter under a page URL with user info, query, query whose last value ends in a slash, relative query, path with trailing slash, directory with trailing slash, escaped path, page URLs carrying a fragment - with the page number in the path, and with a first page that has no page parameter -, https with port and relative file names) x current page k in 1..3 x 6 pager skeletons (numbered, numbered + Prev/Next anchors, Prev/Next only, two pagers, the first two again with a <base href> on another host) x both algorithms; every assignment of <= 2 (quick: two odd slots for three of the families, one for the others) / <= 3 (thorough) link slots to one of 26 odd hrefs (hosts that equal the page's host when a dot is read as any character, escaped #, & and = inside a query value, javascript:, empty, #, mailto:, off-site, scheme-relative, look-alike host, upper-case host, userinfo, other port, relative file/dir, ../, fragment, ftp:, data:, unparseable, missing href, space in path, JavaScript:)." + crossRule + " (under both algorithms) " +
 			"Oracle: a non-empty NextPage/PrevPage parses, is http(s), has the page's host (case-insensitively), and equals - after dropping the fragment and one trailing slash, paths compared decoded - the RFC 3986 resolution of some anchor's href against the page URL as supplied. Non-trivial = a link was returned and the document holds >= 1 non-fetchable/off-site href.",
 		Enumerate: c16Enumerate,
 		Check:     c16Check,
